@@ -274,8 +274,12 @@ func concreteSearch(ob *Oblig, n int, seed int64) map[string]*big.Int {
 }
 
 // selfCheckInt compares the BV-level meaning of every conjunct with its Int translation on sample points.
-func selfCheckInt(ob *Oblig, tr *intTr, n int, seed int64) error {
+func selfCheckInt(ob *Oblig, _ *intTr, n int, seed int64) error {
 	conj := append(flattenAnd(ob.Hyp), ob.Goal)
+	// a fresh translator without hypothesis-based elimination: each conjunct is compared on its own
+	tr := newIntTranslator()
+	tr.noElim = true
+	tr.scan(flattenAnd(ob.Hyp))
 	vars := termVars(conj...)
 	rng := rand.New(rand.NewSource(seed ^ 0x5eed ^ ob.Hyp.id))
 	for i := 0; i < n; i++ {
